@@ -75,6 +75,16 @@ MUTANTS = [
       "    return sum(flow_function[0][v] for v in range(1, 1 + num_servers))", None),
     M("idx-benign-flipped-compare", HU, "            if f[i][v] == 1:\n", "            if 1 == f[i][v]:\n", None),
 
+    M("idx-benign-path-appended", HU, "            path.insert(0, (bfs_tree[n], n))\n", "            path.append((bfs_tree[n], n))\n", None,
+      note="the path is used as a set of edges (min over it, one update per edge): its order is irrelevant"),
+    M("idx-benign-server-row-copied", HZ, "        graph.append(servermap[k])\n", "        graph.append(list(servermap[k]))\n", None),
+    M("idx-benign-no-path-is-none", HU, "        return path\n    return False\n", "        return path\n    return None\n", None,
+      note="sweep survivor: the caller only tests the result for truth"),
+    M("idx-benign-unread-capacities", HU, "                cf[v][i] = 1\n                cf[i][v] = -1\n", "                cf[v][i] = 1\n", None,
+      note="sweep survivor: the capacity of the direction that is NOT a residual edge is never read (delta ranges over path "
+           "edges, which are residual edges; the flow network has no antiparallel edges)"),
+    M("path-edges-reversed", HU, "            path.insert(0, (bfs_tree[n], n))\n", "            path.insert(0, (n, bfs_tree[n]))\n", "C08.3"),
+
     # ---- C08.4 bfs discipline
     M("bfs-not-coloured", HU, "                color[v] = GRAY\n", "", "C08.4"),
     M("bfs-enqueue-unless-black", HU, "            if color[v] == WHITE:\n", "            if color[v] != BLACK:\n", "C08.4"),
@@ -84,6 +94,11 @@ MUTANTS = [
     M("bfs-benign-flipped-compare", HU, "            if color[v] == WHITE:\n", "            if WHITE == color[v]:\n", None),
     M("bfs-benign-depth-first", HU, "        n = queue.pop(0)\n", "        n = queue.pop()\n", None,
       note="any augmenting path gives the same max-flow value"),
+
+    M("bfs-benign-explored-not-blackened", HU, "        color[n] = BLACK\n", "", None,
+      note="sweep survivor: GRAY already is non-WHITE, BLACK is never tested"),
+    M("bfs-benign-no-distance", HU, "                distance[v] = distance[n] + 1\n", "", None,
+      note="sweep survivor: distance is never read"),
 
     # ---- vanished anchors
     M("vanish-bfs", HU, "def bfs(graph, s):", "def bfsX(graph, s):", "ANALYSIS-ERROR",
